@@ -830,9 +830,18 @@ class QueueReader(Obj):
         return outs
 
     def m_get(self, ex, st, args, kwargs, node):
-        if args or kwargs:
-            raise Unsupported('QueueReader.get with arguments')
-        return self._get(ex, st, node)
+        block = kwargs.get('block', args[0] if args else None)
+        timeout = kwargs.get('timeout', args[1] if len(args) > 1 else None)
+        nonblocking = block is not None and z3.is_false(z3.simplify(block))
+        if block is not None and not nonblocking and not z3.is_true(z3.simplify(block)):
+            raise Unsupported('QueueReader.get with symbolic block flag')
+        timed = timeout is not None and not (is_z3(timeout) and timeout.sort() == Val and z3.is_true(z3.simplify(timeout == NONE)))
+        if not nonblocking and not timed:
+            return self._get(ex, st, node)
+        # timed / non-blocking get: the next item if the writer has already put it, else queue.Empty (the writer may be slow)
+        outs = self._get(ex, st, node, blocking=False)
+        outs.append(ex.raise_new(st.fork(), 'queue.Empty'))
+        return outs
 
     def m_get_nowait(self, ex, st, args, kwargs, node):
         outs = self._get(ex, st, node, blocking=False)
@@ -860,7 +869,7 @@ class FutureSym:
     trusted = 'Future.result()/await returns the result or raises the exception the future was resolved with; cancel() never raises'
 
     def __init__(self, exc_class='BaseException'):
-        self.exc_class = exc_class
+        self.exc_class = exc_class      # a class name or a tuple of class names
 
     def getattr(self, ex, st, base, attr, node):
         from .core import SymMethod
@@ -874,7 +883,8 @@ class FutureSym:
         if ex.feasible(s1):
             outs.append(('ok', s1, fut_val(f)))
         e = fut_exc(f)
-        s2 = st.fork().assume(z3.Not(fut_ok(f)), V.isinst(e, self.exc_class), *V.cls_facts(e))
+        classes = self.exc_class if isinstance(self.exc_class, (tuple, list)) else (self.exc_class,)
+        s2 = st.fork().assume(z3.Not(fut_ok(f)), z3.Or([V.isinst(e, c) for c in classes]), *V.cls_facts(e))
         if ex.feasible(s2):
             outs.append(('raise', s2, e))
         return outs
